@@ -43,6 +43,14 @@ struct simk_fd {
 	uint32_t arr_min, arr_max;	/* arrival chunk size range */
 	uint32_t arr_delay_us;		/* max delay between arrivals; 0: all at once */
 	uint64_t arr_next_us;
+	/*
+	 * How the end of the inbound stream shows up in poll once all data
+	 * has been read: 0 = POLLIN only, 1 = POLLHUP (EOF) / POLLERR (error)
+	 * alone, 2 = both.  Real kernels do all three (pipes report POLLHUP
+	 * alone, TCP reports POLLIN|POLLHUP, a connected UDP socket POLLERR
+	 * alone).
+	 */
+	int end_signal;
 	uint32_t seg_max;		/* cap per recv (0 = none) */
 	uint8_t p_eintr, p_spurious;	/* x/256 per recv call */
 
